@@ -22,6 +22,10 @@
    - a table variable, a lock, an owner goroutine, an allow-list entry or an
      outside_table entry no longer exists: Tie_vars_have_sites,
      Tie_names_exist, Tie_lists_exact;
+   - a local (map, slice, struct, pointer) that a goroutine literal captures
+     or is handed keeps being written by the function after the go statement
+     (a live map handed to a goroutine instead of a copy): Tie_sites_comply,
+     variable "local:<function>:<name>";
    - an initialisation function (ResetHeaderState) is called after a go
      statement: Tie_init_calls.                                            *)
 From Coq Require Import String List Bool Arith ZArith.
@@ -48,7 +52,8 @@ Definition is_outside (v : string) : bool :=
   existsb (fun o => let p := fst o in
                     String.eqb p v
                     || (String.prefix p v && String.eqb (substring (Nat.pred (String.length p)) 1 p) ".")) outside_table.
-Definition accounted (v : string) : bool := in_table v || is_outside v.
+(* shared locals are covered by the default discipline (SiteCheck.lookup_var) *)
+Definition accounted (v : string) : bool := in_table v || is_outside v || String.prefix "local:" v.
 
 Definition needs_account (f : fsum) : bool := Nat.ltb 0 (f_writes f) || Nat.ltb 0 (f_atomics f).
 
@@ -61,7 +66,7 @@ Definition unaccounted : list string :=
    something, no variable is listed twice or both inside and outside *)
 Definition stale_exempt : list aentry :=
   filter (fun x => negb (existsb (fun a => allowed [x] a
-                                           && match find_var vars (a_var a) with
+                                           && match lookup_var vars (a_var a) with
                                               | Some e => negb (site_ok e a) | None => false end)
                                  access_sites)) exempt.
 Definition stale_outside : list string :=
